@@ -48,6 +48,11 @@ pub fn numeric_schemas(small: bool) -> Vec<Value> {
                 }
             }
         }
+        // narrow two-sided ranges with multipleOf on either side of zero: with and without a multiple inside
+        // (the ones without must be refused, never compiled into a lexeme with an empty language)
+        for (lo, hi, m) in [(-11.0, -7.0, 6.0), (7.0, 11.0, 6.0), (-5.0, -1.0, 6.0), (1.0, 5.0, 6.0), (-2.5, -0.5, 3.0), (0.5, 2.5, 3.0), (-11.0, -7.0, 4.0), (7.0, 11.0, 4.0), (-13.0, -12.0, 6.0)] {
+            out.push(json!({"type": ty, "minimum": num(lo), "maximum": num(hi), "multipleOf": num(m)}));
+        }
         // both keywords of one side at once, in either order of tightness
         out.push(json!({"type": ty, "minimum": 0, "maximum": 5, "exclusiveMaximum": 10}));
         out.push(json!({"type": ty, "minimum": 0, "maximum": 10, "exclusiveMaximum": 5}));
@@ -267,7 +272,7 @@ pub fn intersection_schemas(small: bool) -> Vec<Value> {
         vec![
             ("prefixItems", vec![None, Some(json!([{"type": "integer"}, {"type": "boolean"}]))]),
             ("items", vec![None, Some(json!(false)), Some(json!({"type": "null"}))]),
-            ("len", vec![None, Some(json!({"minItems": 1}))]),
+            ("len", vec![None, Some(json!({"minItems": 1})), Some(json!({"maxItems": 1}))]),
         ]
     } else {
         vec![
